@@ -399,4 +399,35 @@ theorem wrun_cell_fresh (vo : VOps V) (pre : Str) (k : Key) (p : Str) (hp : '_' 
       · simp only [hq, if_false]
         rw [hcv ⟨st.pid, st.files, st.values, deadDisk q st.disk, st.actual⟩ rfl]
 
+theorem wrun_bound (vo : VOps V) (evs : List (Ev V)) (st : St V) (hb : Bound st) (hid : IdOK st) (hev : evsIdOK evs) :
+    Bound (wrun vo st evs) ∧ IdOK (wrun vo st evs) := by
+  induction evs generalizing st with
+  | nil => exact ⟨hb, hid⟩
+  | cons e r ih =>
+    rw [wrun_cons]
+    have he := hev e List.mem_cons_self
+    exact ih _ (wstep_bound vo st e hb hid he) (wstep_idOK vo st e hb hid he) (fun x hx => hev x (List.mem_cons_of_mem _ hx))
+
+/-- freshness of a history that continues with a new worker: the part after the `spawn` is fresh from a clean slate -/
+theorem wFresh_append_spawn (vo : VOps V) (a b : List (Ev V)) (q : Str) (st : St V) (fl : Flags)
+    (h : wFresh vo st fl (a ++ Ev.spawn q :: b) = true) :
+    wFresh vo (wstep vo (wrun vo st a) (Ev.spawn q)).1 (fun _ => true) b = true := by
+  induction a generalizing st fl with
+  | nil => simpa [wFresh, wrun] using h
+  | cons e r ih =>
+    rw [wrun_cons]
+    cases e with
+    | op o =>
+      simp only [List.cons_append, wFresh, Bool.and_eq_true] at h
+      exact ih _ _ h.2
+    | spawn p =>
+      simp only [List.cons_append, wFresh] at h
+      exact ih _ _ h
+    | dead p =>
+      simp only [List.cons_append, wFresh] at h
+      exact ih _ _ h
+
+theorem freshInv_init (vo : VOps V) (p0 : Str) (fl : Flags) : FreshInv vo (St.init (V := V) p0) fl :=
+  fun i v hv _ => by simp [St.init] at hv
+
 end PromVerif.Model.Values
